@@ -286,17 +286,22 @@ def cases_from_tlc(behs, meshes, rng, jnp_every=1):
     return cases
 
 
-def random_case(rng, big):
-    """Random EssentialBC list over a random family of node sets on a structured / Delaunay mesh."""
-    order = rng.choice([1, 1, 2, 3]) if big else rng.choice([1, 1, 2])
-    if rng.random() < 0.5:
-        nx, ny = (rng.randrange(4, 9), rng.randrange(5, 9)) if big else (rng.randrange(2, 5), rng.randrange(2, 6))
-        if big and order == 3:
-            nx, ny = min(nx, 6), min(ny, 6)
-        desc = dict(kind="structured", nx=nx, ny=ny, order=order)
-    else:
-        desc = dict(kind="delaunay", npts=(rng.randrange(20, 50) if big else rng.randrange(5, 14)),
-                    seed=rng.randrange(1000), order=order)
+def mesh_pool(rng, n, big):
+    """seeded pool of mesh descriptors: structured (4x5 .. 8x8 when big) and Delaunay meshes, orders 1..3"""
+    pool = []
+    for k in range(n):
+        order = rng.choice([1, 1, 2, 3]) if big else rng.choice([1, 1, 2])
+        if k % 2 == 0:
+            nx, ny = (rng.randrange(4, 9), rng.randrange(5, 9)) if big else (rng.randrange(2, 5), rng.randrange(2, 6))
+            pool.append(dict(kind="structured", nx=nx, ny=ny, order=order))
+        else:
+            pool.append(dict(kind="delaunay", npts=(rng.randrange(20, 60) if big else rng.randrange(5, 14)),
+                             seed=rng.randrange(1000), order=order))
+    return pool
+
+
+def random_case(rng, desc):
+    """Random EssentialBC list over a random family of node sets on the mesh `desc`."""
     m = _mesh_cached(desc)
     N = int(m.coords.shape[0])
     coords = onp.asarray(m.coords)
@@ -373,7 +378,8 @@ def tlc_behaviours(rep, tier):
         rec = json.loads(raw) if isinstance(raw, str) else raw
         meshes[(rec["name"], rec["Dim"])] = rec
     if tier == "thorough":
-        sim = tlc.run(GEN, "DofManagerGen_sim.cfg", simulate=400, depth=14, seed=common.seed() + 1, label="simulate-2^18",
+        # simulation mode evaluates EmitT on every successor of every visited state: ~30 BC lists per step
+        sim = tlc.run(GEN, "DofManagerGen_sim.cfg", simulate=60, depth=12, seed=common.seed() + 1, label="simulate-2^18",
                       timeout=1500)
         if tlc.require_ok(sim, rep, "simulate"):
             rep.add_tlc(sim)
@@ -387,6 +393,8 @@ def tlc_behaviours(rep, tier):
                 if k not in seen:
                     seen.add(k)
                     uniq.append(b)
+            random.Random(common.seed() + 2).shuffle(uniq)
+            uniq = uniq[:6000]
             rep.coverage["behaviours_from_simulation"] = len(uniq)
             behs = behs + uniq
     return behs, meshes
@@ -394,7 +402,7 @@ def tlc_behaviours(rep, tier):
 
 def mask_key(case):
     ns = case["nodeSets"]
-    return (case["mesh"].get("name"), case["dim"],
+    return (case["mesh"].get("name") or json.dumps(case["mesh"], sort_keys=True), case["dim"],
             tuple(sorted({n * case["dim"] + c for s, c in case["bcs"] for n in ns[s]})))
 
 
@@ -476,7 +484,8 @@ def main(tier, replay=None):
     nproc = int(os.environ.get("VERIF_PROCS", str(min(8, os.cpu_count() or 1))))
     t0 = time.time()
     if replay:
-        case = json.load(open(replay))["case"]
+        stored = json.load(open(replay))
+        case = {k: v for k, v in stored["case"].items() if k in ("mesh", "dim", "nodeSets", "bcs", "tokSeed", "jnp", "src")}
         cases = [case]
         nstates = 1
     else:
@@ -496,11 +505,20 @@ def main(tier, replay=None):
             rep.machinery("replay is not exhaustive: %d of %d masks of the small meshes were emitted" % (have, want))
         # genuine runs not derived from TLC: the upstream test's input and random BC lists on larger meshes
         extra = [upstream_case()]
-        nrand_small, nrand_big = (40, 6) if tier == "quick" else (600, 160)
-        extra += [random_case(rng, big=False) for _ in range(nrand_small)]
-        extra += [random_case(rng, big=True) for _ in range(nrand_big)]
+        # (meshes, BC lists per mesh): small meshes, large meshes
+        plan = ((8, 5), (3, 2)) if tier == "quick" else ((40, 12), (40, 5))
+        for (nmesh, per), big in zip(plan, (False, True)):
+            for desc in mesh_pool(rng, nmesh, big):
+                extra += [random_case(rng, desc) for _ in range(per)]
         rep.coverage["random_cases"] = len(extra)
         cases += extra
+        # distinct = distinct (mesh, Dim, declared mask); non-trivial = the mask is neither empty nor all dofs
+        allkeys = {mask_key(c) for c in cases}
+        sizes = {}
+        for c in cases:
+            sizes[mask_key(c)[:2]] = int(_mesh_cached(c["mesh"]).coords.shape[0]) * c["dim"]
+        nstates = sum(1 for k in allkeys if 0 < len(k[2]) < sizes[k[:2]])
+        rep.coverage["distinct_masks_all_cases"] = len(allkeys)
         binding_selftest(rep)
     t1 = time.time()
     obs = observe_parallel(cases, nproc)
@@ -554,12 +572,17 @@ def main(tier, replay=None):
             validate_parallel(large, rep, on_fail, 12, nproc, "trace-large")
     rep.coverage["validate_wall_s"] = round(time.time() - t2, 1)
 
+    if replay:
+        got = sorted({cl for cl, _, _ in rep.violations})
+        print("C14 replay: stored clause %r %s (failing clauses now: %s)" % (
+            stored.get("clause"), "REPRODUCED" if stored.get("clause") in got else "not reproduced", got))
     rc = rep.finish(
         rule="quick: every (node, component) mask of meshes T1,T2 (Dim 1..3), T4,Q1 (Dim 1,2), Q2 (Dim 1) is reached by "
              "TLC (VIEW = declared mask) and the EssentialBC list TLC built for it is replayed into the real DofManager, "
              "plus every transition out of lists of length <= 1 (pairs of node sets), the upstream test input and "
              "seeded random BC lists on structured/Delaunay meshes; thorough adds the 2^18-mask design run, simulated "
-             "lists on those meshes and more/larger random meshes (orders 1..3). distinct = distinct declared masks",
+             "lists on those meshes and more/larger random meshes (orders 1..3). distinct = distinct (mesh, Dim, declared mask) triples over all replayed cases; "
+             "non-trivial = the mask is neither empty nor all dofs",
         extra={"distinct_nontrivial": nstates, "wall_generate_s": round(t1 - t0, 1)},
         exhaustive=(replay is None))
     return rc
